@@ -98,12 +98,14 @@ type SmellMethodTruth struct {
 	Conds             []SmellCondTruth // one per top-level if, in source order
 	DecoyLines        []int            // lines on which a condition starts that is NOT a top-level if condition (nested if, else-if, while …)
 	ElseIfLines       []int            // of those, the lines on which the condition of an `else if` branch starts
+	InCRLFFile        bool             // the file is written with \r\n line ends
 }
 
 // SmellClassTruth is one generated file (exactly one top-level type).
 type SmellClassTruth struct {
 	File    string // relative, slash-separated
 	Kind    string // class | interface
+	CRLF    bool   // written with \r\n line ends
 	Methods []SmellMethodTruth
 }
 
@@ -146,6 +148,9 @@ func smellFormCtx(m *SmellMethodTruth) string {
 	}
 	if m.HeadSplit {
 		s += "/modifiers-on-previous-line(first=" + m.HeadFirst + ")"
+	}
+	if m.InCRLFFile {
+		s += "/crlf-file"
 	}
 	return s
 }
@@ -342,6 +347,9 @@ func smellSpuriousCtx(classes []SmellClassTruth, f SmellFinding) string {
 				}
 			}
 		}
+		if c.CRLF {
+			return "no-top-level-if-condition-starts-there/crlf-file"
+		}
 		return "no-top-level-if-condition-starts-there"
 	}
 	for mi := range c.Methods {
@@ -370,6 +378,9 @@ func smellSpuriousCtx(classes []SmellClassTruth, f SmellFinding) string {
 		if m.HeadSplit && m.StartLine+1 == ln {
 			return "line-of-return-type-not-of-declaration-start" + smellFormCtx(m)
 		}
+	}
+	if c.CRLF {
+		return "no-method-starts-there/crlf-file"
 	}
 	return "no-method-starts-there"
 }
